@@ -654,7 +654,7 @@ func init() {
 			"s2, frugal/thrift are trusted; nil and empty values are equal by content",
 			"the buffer pool is modelled as a free list whose Get may return any pooled buffer or a new one (all legal sync.Pool behaviours)",
 		},
-		QuickS: 60, ThoroughS: 900,
+		QuickS: 100, ThoroughS: 900,
 	}
 }
 
